@@ -54,6 +54,13 @@ def cb_corpus():
               "vars": [var("W", [A("regex", "[a-z]+", cbk="unit_unit")]), var("N", [A("regex", "[0-9]+", cbk="val_t")], "u32")]})
     D.append({"id": "cb7", "utf8": True, "logos": E2, "tags": ["role:cb"], "subs": [], "skips": [],
               "vars": [var("X", [A("regex", "x+", cbk="val_filter")], "u32"), var("Y", [A("regex", "x+y", cbk="val_opt")], "u32"), var("Z", [A("token", "xx", cbk="unit_bool", prio=20)])]})
+    D.append({"id": "cb8", "utf8": True, "logos": E1, "tags": ["role:cb"], "subs": [], "skips": [A("skip", " ")],
+              "vars": [var("P", [A("regex", "p+", cbk="val_t_paren", cb="|lex| (crate::cb::val_t(lex)) + 100")], "u32"),
+                       var("Q", [A("regex", "q+", cbk="val_t_brace", cb="|lex| { crate::cb::val_t(lex) } + 200")], "u32"),
+                       var("S", [A("regex", "s+", cbk="unit_bool_and", cb="|lex| (crate::cb::unit_bool(lex)) && false")]),
+                       var("T", [A("regex", "t+", cbk="unit_bool_or", cb="|lex| { crate::cb::unit_bool(lex) } || true")])]})
+    D.append({"id": "cb9", "utf8": True, "logos": E1, "tags": ["role:cb"], "subs": [], "skips": [],
+              "vars": [var("R", [A("regex", "r+", cbk="val_t_index", cb="|lex| [crate::cb::val_t(lex), 7][0] + 300")], "u32"), var("W", [A("regex", "[a-q]", cbk="unit_unit")])]})
     return D
 
 
@@ -67,7 +74,13 @@ def cb_run(tier, seed, cfgs):
     nchars = 5 if tier == "quick" else 6
     by_id = {m["id"]: m for m in metas}
     char_bytes = {}
+    panic_findings = []
     for td, m in zip(tla_defs, metas):
+        if m["panic"]:
+            # a documented callback form on which the derive fails altogether: reported, the definition is left out of the replay
+            panic_findings.append({"def": m["id"], "cfg": "derive", "input": "", "why": "the derive fails on a documented callback form: %s" % m["panic"][:300], "expected": None, "got": None, "src": m["src"]})
+            td["chars"] = []
+            continue
         if not m["accepted"]:
             raise ToolError("callback definition rejected: %s %s" % (m["id"], m["errors"]))
         td["errcb"] = any("callback" in l for l in m["def"]["logos"])
@@ -110,7 +123,7 @@ def cb_run(tier, seed, cfgs):
         for c in r["chars"]:
             data.extend(char_bytes[r["d"]][c - 1])
         reqs.append(("%d f %s" % (r["d"], bytes(data).hex()), r, bytes(data).hex()))
-    findings = []
+    findings = list(panic_findings)
     for c in cfgs:
         reps = run_subject(bins[c], [q[0] for q in reqs], timeout=1800)
         for (line, r, hexd), rep in zip(reqs, reps):
